@@ -23,11 +23,13 @@ ASSUMPTIONS = [
     "when the exception reaches the caller, 'stop' has nothing left to observe",
 ]
 ENUM_EXHAUSTIVE = {
-    "thorough": "63 policies x 2 routes x 11 override settings x 7 error kinds x (4 offending-line patterns x 3 component positions + 1 header-row-at-line-0 case + 1 stop()-on-the-offending-line case)",
+    "thorough": "63 policies x 2 routes x 15 override settings (4 of them combinations) x 7 error kinds x (4 offending-line patterns x 3 component positions + 1 header-row-at-line-0 case + 1 stop()-on-the-offending-line case)",
 }
 
 FLAGS = ["raise", "collect", "stop", "fail", "print", "quiet"]
-OVERRIDES = [None, "raise", "no-raise", "stop", "no-stop", "fail", "no-fail", "print", "no-print", "match", "no-match"]
+OVERRIDES = [None, "raise", "no-raise", "stop", "no-stop", "fail", "no-fail", "print", "no-print", "match", "no-match",
+             # several settings in one comment: each flag is overridden on its own
+             "match, stop", "stop, no-fail", "match, no-raise, fail", "no-raise, no-stop, print"]
 KINDS = {
     # kind: (component, benign value, offending value)
     "args": ('@z = add(#v, 1)', "5", "x"),
